@@ -142,6 +142,19 @@ theorem compare_no_fault (nvars : Nat) (regs : List (List Byte)) (ops : List (Op
   obtain ⟨cw, hcw, _⟩ := refines nvars regs ops st hrun w hw
   exact ⟨cv, cw, hcv, hcw, by simp [equalBufs, hcv, hcw]⟩
 
+/-- `operator!=` reads only the exposed bytes too and is the negation of `operator==` in every reachable state. -/
+theorem compare_ne (nvars : Nat) (regs : List (List Byte)) (ops : List (Op × Nat)) (st : State)
+    (hrun : run (init nvars regs) ops = some st) (v w : Nat) (hv : v < nvars) (hw : w < nvars) :
+    ∃ e, equalBufs st v w = some e ∧ notEqualBufs st v w = some (!e) := by
+  obtain ⟨cv, cw, hcv, hcw, he⟩ := compare_no_fault nvars regs ops st hrun v w hv hw
+  refine ⟨_, he, ?_⟩
+  simp only [notEqualBufs, hcv, hcw, Option.bind_eq_bind, Option.bind_some, Option.pure_def, Option.some.injEq]
+  by_cases h : cv = cw
+  · subst h; simp
+  · have hb : (cv == cw) = false := by simpa using h
+    have hn : (cv != cw) = true := by simpa using h
+    simp [hb, hn]
+
 /-! ### capacity, `reserve`, the observers `size()` / `isEmpty()` / `capacity()` -/
 
 /-- **Capacity policy bound.**  After any history the `_capacity` of every variable is at most the largest size any
